@@ -27,7 +27,7 @@ ASSUMPTIONS = [
     "bounds: <= 2 concurrent rcu_barrier() calls, <= 2 helpers, <= 2 rcu_heads, one concurrent enqueuer or one concurrent call_rcu_data_free; store buffers <= 2 in TLC",
 ]
 QUICK = ["crcu_bar1", "crcu_2bar_s"]
-THOROUGH = ["crcu_bar_e", "crcu_spur", "crcu_bar_free", "crcu_bar_rt", "crcu_bar", "crcu_2bar", "crcu_bar_off"]
+THOROUGH = ["crcu_bar_e", "crcu_spur", "crcu_bar_free", "crcu_bar_free2", "crcu_bar_rt", "crcu_bar", "crcu_2bar", "crcu_bar_off"]
 QSBR_QUICK = ["crcu_bar1", "crcu_bar_off"]
 QSBR_THOROUGH = ["crcu_bar1", "crcu_bar_off", "crcu_2bar_s", "crcu_bar_e"]
 NEG_QUICK = [("crcu_bar1", ["earlycount"], "BarrierComplete"), ("crcu_bar1", ["noref"], "")]
@@ -39,8 +39,9 @@ def run(ctx):
     q = ctx.quick()
     if q:
         # crcu_bar_free (barrier racing with call_rcu_data_free): conformance only in the quick tier, its 1.5M-state TLC run is in the thorough tier
-        cc.run_property(ctx, "C04", QUICK + ["crcu_bar_free"], NEG_QUICK, LIVE, nseeds=40, nscript=0, sc_tsos={s: (0, 1) for s in QUICK + ["crcu_bar_free"]},
-                        mc_workers=3, mc_timeout=900, conf_only=("crcu_bar_free",))
+        # crcu_bar_free2: the same race with the barrier placed, by a directed schedule, in the window in which call_rcu_data_free has dropped call_rcu_mutex
+        cc.run_property(ctx, "C04", QUICK + ["crcu_bar_free", "crcu_bar_free2"], NEG_QUICK, LIVE, nseeds=40, nscript=12, sc_tsos={s: (0, 1) for s in QUICK + ["crcu_bar_free", "crcu_bar_free2"]},
+                        mc_workers=3, mc_timeout=900, conf_only=("crcu_bar_free", "crcu_bar_free2"))
         cc.real_flavor(ctx, "mb", ["crcu_bar1"], nseeds=15)
         cc.real_flavor(ctx, "qsbr", QSBR_QUICK, nseeds=10, tsos=(0, 1))
     else:
